@@ -36,7 +36,7 @@ COMPONENTS = {"real": ["setigen.cadence.Cadence.add_signal / overwrite_times / c
 ASSUMPTIONS = ["box frequency profiles are not combined with sub-sample integration (knife-edge pixels)",
                "an interrupt delivered on the cadence loop's own restore statement is out of scope",
                "the failing frame's own data is not judged after a fault"]
-PROBES = ["overwrite_times_called_after_construction", "consolidated_one_frame_cadence", "options_by_position", "frame_with_own_time_origin", "callback_raised_on_frame_k>0", "interrupt_inside_later_frame", "integrate_path", "integrate_t_profile",
+PROBES = ["cadence_list_changed_between_injections", "overwrite_times_called_after_construction", "consolidated_one_frame_cadence", "options_by_position", "frame_with_own_time_origin", "callback_raised_on_frame_k>0", "interrupt_inside_later_frame", "integrate_path", "integrate_t_profile",
           "integrate_f_profile", "doppler_smearing", "slice_subset", "label_subset", "repeated_injection", "gaps_between_frames",
           "array_path", "bounding_range", "stateful_rfi_path", "noncontiguous_subset", "parent_built_with_t_overwrite", "second_injection_through_other_selection"]
 MAX_LINE_POINTS = 1500
@@ -96,7 +96,8 @@ def generate(rng, tier):
             "path": path, "t": tprof, "f": fprof, "bp": bp, "opts": opts, "bounding": bounding,
             "repeats": rng.choice([1, 1, 2]), "t_slew": rng.choice([0.0, 10.0, 300.25]), "ops": [],
             "positional": rng.choice([0, 0, 0, 2, 3, 5, 8]),
-            "ow_form": rng.choice(["ctor", "ctor", "append", "grow", "reassign"])}
+            "ow_form": rng.choice(["ctor", "ctor", "append", "grow", "reassign"]),
+            "mutate_between": rng.choice([None, None, None, "setitem", "plain_setitem", "insert0", "insert_mid", "del0"])}
 
 
 def simplify(sc):
@@ -549,6 +550,46 @@ def execute(sc, ctx):
         and cons.tchans == sum(f.tchans for f in fr2) and cons.fchans == g["fchans"] \
         and np.array_equal(cons.fs, fr2[0].fs)
     ctx.check(ok, "consolidate", "C16/consolidate/data_or_times", "consolidated frame differs from the concatenation in order")
+    # the list of an (ordered) cadence is changed between two injections: the second one goes by the members and start
+    # times as they are then
+    mb = sc.get("mutate_between")
+    if mb and sc["path"]["kind"] not in ("array", "rfi") and sc["t"]["kind"] != "array" and not (ctx.violations and ctx.stop_on_violation):
+        fr3 = build_frames(sc)
+        tmax = max(f.t_stop for f in fr3)
+        extra = stg.Frame(fchans=g["fchans"], tchans=fr3[0].tchans, df=g["df"], dt=g["dt"], fch1=g["fch1"], ascending=g["ascending"],
+                          t_start=(tmax + 77.0) if mb != "insert0" else (min(f.t_start for f in fr3) - 500.0), seed=5)
+        c3 = stg.OrderedCadence(fr3, order="ABACADAEAFAG") if mb != "plain_setitem" else stg.Cadence(fr3)
+        p1, t1, f1, b1, _ = make_components(sc, fr3[0].tchans, fmin)
+        c3.add_signal(p1, t1, f1, b1, **kw)
+        if mb in ("setitem", "plain_setitem"):
+            c3[len(c3) - 1] = extra
+        elif mb == "insert0":
+            c3.insert(0, extra)
+        elif mb == "insert_mid":
+            c3.insert(1, extra)
+        elif len(c3) > 1:
+            del c3[0]
+        ctx.op("mutate_between_injections")
+        ctx.hit("cadence_list_changed_between_injections")
+        mem3 = list(c3)
+        before3 = [np.array(f.data, copy=True) for f in mem3]
+        ts3 = [np.array(f.ts, copy=True) for f in mem3]
+        p2, t2, f2, b2, _ = make_components(sc, fr3[0].tchans, fmin)
+        c3.add_signal(p2, t2, f2, b2, **kw)
+        q1, q2, q3, q4, _ = make_components(sc, fr3[0].tchans, fmin)
+        for j3, f in enumerate(mem3):
+            off = f.t_start - mem3[0].t_start
+            tw = stg.Frame(fchans=g["fchans"], tchans=f.tchans, df=g["df"], dt=g["dt"], fch1=g["fch1"], ascending=g["ascending"],
+                           t_start=f.t_start, seed=1)
+            tw.ts = np.array(ts3[j3], copy=True)
+            sp = (lambda tt, _p=q1, _o=off: _p(np.asarray(tt) + _o)) if callable(q1) else q1
+            st_ = (lambda tt, _p=q2, _o=off: _p(np.asarray(tt) + _o)) if callable(q2) else q2
+            want3 = tw.add_signal(sp, st_, q3, q4, **kw)
+            delta3 = f.data - before3[j3]
+            sc3 = max(float(np.max(np.abs(want3))), float(np.max(np.abs(before3[j3]))), 1e-300)
+            if not ctx.check(np.all(np.abs(delta3 - want3) <= 1e-7 * sc3), "continuity",
+                             "C16/signal/after_list_change/%s" % mb, lambda: "member %d (offset %.6g s) of the changed cadence" % (j3, off)):
+                break
     # the consolidated frame is a new frame: it shares no data with the members, also for sub-cadences of one frame
     # (label subsets, length-1 slices), and editing either side leaves the other alone
     subs = [("all", c2)] + [("one_frame:%d" % k, c2[k:k + 1]) for k in sorted({0, len(fr2) - 1})]
